@@ -37,6 +37,8 @@ func (Driver) ID() string { return "C03" }
 type Curve struct {
 	Type  string   `json:"type"`
 	Pts   [][2]int `json:"pts,omitempty"`
+	CA    [][2]int `json:"ca,omitempty"` // chain: control points of curve A
+	CB    [][2]int `json:"cb,omitempty"` // chain: control points of curve B (a straight line joins A's end to B's start)
 	Shape string   `json:"shape,omitempty"`
 	A     int      `json:"a"`
 	N     int      `json:"n"`
@@ -82,6 +84,9 @@ type Event struct {
 }
 
 func (s *Scenario) q() int {
+	if s.Cv.Type == "chain" {
+		return 16
+	}
 	if s.Cv.Type != "arc" {
 		return 1024
 	}
@@ -103,6 +108,18 @@ func (s *Scenario) describe() string {
 	case "cubic":
 		p := s.Cv.Pts
 		fmt.Fprintf(&b, "M%d %dC%d %d %d %d %d %d", p[0][0], p[0][1], p[1][0], p[1][1], p[2][0], p[2][1], p[3][0], p[3][1])
+	case "chain":
+		bez := func(c [][2]int) {
+			if len(c) == 3 {
+				fmt.Fprintf(&b, "Q%d %d %d %d", c[1][0], c[1][1], c[2][0], c[2][1])
+			} else {
+				fmt.Fprintf(&b, "C%d %d %d %d %d %d", c[1][0], c[1][1], c[2][0], c[2][1], c[3][0], c[3][1])
+			}
+		}
+		fmt.Fprintf(&b, "M%d %d", s.Cv.CA[0][0], s.Cv.CA[0][1])
+		bez(s.Cv.CA)
+		fmt.Fprintf(&b, "L%d %d", s.Cv.CB[0][0], s.Cv.CB[0][1])
+		bez(s.Cv.CB)
 	case "arc":
 		g := s.G
 		l, w := 0, 0
@@ -143,6 +160,21 @@ func (s *Scenario) build() *canvas.Path {
 		x2, y2 := m(c[2])
 		x3, y3 := m(c[3])
 		p.CubeTo(x1, y1, x2, y2, x3, y3)
+	case "chain":
+		bez := func(c [][2]int) {
+			x1, y1 := m(c[1])
+			x2, y2 := m(c[2])
+			if len(c) == 3 {
+				p.QuadTo(x1, y1, x2, y2)
+			} else {
+				x3, y3 := m(c[3])
+				p.CubeTo(x1, y1, x2, y2, x3, y3)
+			}
+		}
+		p.MoveTo(m(s.Cv.CA[0]))
+		bez(s.Cv.CA)
+		p.LineTo(m(s.Cv.CB[0]))
+		bez(s.Cv.CB)
 	case "arc":
 		g := s.G
 		p.MoveTo(m(g.S))
@@ -301,6 +333,9 @@ func judge(c *core.Ctx, evs []Event, workers int) ([]verdict, bool) {
 		if evs[i].Cv.Pts == nil {
 			evs[i].Cv.Pts = [][2]int{}
 		}
+		if evs[i].Cv.Type == "chain" && len(evs[i].Cv.CA) == 0 {
+			c.Broken("chain event without control points")
+		}
 		enc.Encode(evs[i])
 	}
 	res := c.TLC(tlc.Opts{Module: "Trace_Curves", Workers: workers, Files: map[string][]byte{"trace_curves.ndjson": buf.Bytes()}, Config: tcfg(), Timeout: 30 * time.Minute}, true)
@@ -429,7 +464,7 @@ type item struct {
 }
 
 func (d Driver) Run(c *core.Ctx) error {
-	c.Rule = "scenario = exact curve printed by spec/Curves.tla (every quadratic Bezier with control points on the 4x4 lattice, RandomSubset of cubics, arcs of the radius-65 circle / 2:1 ellipse (rotation 0, 90) between integer points with both sweep directions, the chord-equals-rx arcs) x variant (open, closed by z, preceded by a straight sub-path) x call (Flatten at t0, t0/4, t0/16; ReplaceArcs; XMonotone) x similarity embedding; every logged output is judged by spec/Trace_Curves.tla (structure, way-points within 4t of the polyline in order, vertices within 1.5t + gap of the curve in order, annulus for arcs, x-monotone pieces); evaluations = real calls; non-trivial = distinct (curve, variant, call) whose output has at least 3 vertices"
+	c.Rule = "scenario = exact curve printed by spec/Curves.tla (every quadratic Bezier with control points on the 4x4 lattice, RandomSubset of cubics, arcs of the radius-65 circle / 2:1 ellipse (rotation 0, 90) between integer points with both sweep directions, the chord-equals-rx arcs, the 30 chains [near-straight curve A][line][curve B] in one sub-path) x variant (open, closed by z, preceded by a straight sub-path) x call (Flatten at t0, t0/4, t0/16; ReplaceArcs; XMonotone) x similarity embedding; every logged output is judged by spec/Trace_Curves.tla (structure, way-points within 6t of the polyline in order, vertices within 1.5t + gap of the curve in order, annulus for arcs, x-monotone pieces); evaluations = real calls; non-trivial = distinct (curve, variant, call) whose output has at least 3 vertices"
 	c.Assumptions = []string{
 		"t0 = 1/10 lattice unit for Beziers (lattice 0..3), 13/10 for arcs of radius 65; outputs are mapped back through the embedding and quantised at Q = 1024 (Beziers), 32 (circle), 16 (ellipse) per unit; every radius carries +2 quantisation slack",
 		"c = 4 for way-points and 1.5 for vertices are the calibrated constants of DESIGN section 5 C03",
@@ -454,38 +489,46 @@ func (d Driver) Run(c *core.Ctx) error {
 				if k%700 == 1 {
 					c.Sample(json.RawMessage(p))
 				}
-				t0n := 1
+				t0n, tds := 1, []int{10, 40, 160}
 				if base.Cv.Type == "arc" {
 					t0n = 13
+				} else if base.Cv.Type == "chain" {
+					t0n, tds = 5, []int{2, 8, 32} // t0 = 5/2 on the 0..150 lattice
 				}
 				// variant: open / closed / preceded by a line sub-path
-				closed, pre := h%4 == 1 || h%4 == 3, h%4 >= 2
+				variants := []uint32{h % 4}
+				if base.Cv.Type == "chain" {
+					variants = []uint32{0, 1, 2, 3} // open, closed, second sub-path, both
+				}
 				var local []item
-				emit := func(op string, tn, td int, e latgeo.Emb) {
-					s := base
-					s.Op, s.Tn, s.Td, s.Emb, s.Closed, s.Pre = op, tn, td, e, closed, pre
-					atomic.AddInt64(&nCalls, 1)
-					ev, kind, msg := observe(&s, false)
-					if kind != "" {
-						c.Report(&s, []core.Mismatch{panicMismatch(&s, kind, msg)})
-						return
+				for _, vr := range variants {
+					closed, pre := vr == 1 || vr == 3, vr >= 2
+					emit := func(op string, tn, td int, e latgeo.Emb) {
+						s := base
+						s.Op, s.Tn, s.Td, s.Emb, s.Closed, s.Pre = op, tn, td, e, closed, pre
+						atomic.AddInt64(&nCalls, 1)
+						ev, kind, msg := observe(&s, false)
+						if kind != "" {
+							c.Report(&s, []core.Mismatch{panicMismatch(&s, kind, msg)})
+							return
+						}
+						local = append(local, item{&s, ev})
 					}
-					local = append(local, item{&s, ev})
+					e1 := rotEmbs[int(h/3)%len(rotEmbs)]
+					for _, td := range tds {
+						emit("flatten", t0n, td, latgeo.Identity)
+					}
+					emit("flatten", t0n, tds[int(h/5)%3], e1)
+					if c.Thorough() || base.Cv.Type == "chain" {
+						emit("flatten", t0n, tds[0], rotEmbs[int(h/11)%len(rotEmbs)])
+					}
+					if base.Cv.Type == "arc" {
+						emit("replacearcs", 0, 1, latgeo.Identity)
+						emit("replacearcs", 0, 1, e1)
+					}
+					emit("xmonotone", 0, 1, latgeo.Identity)
+					emit("xmonotone", 0, 1, xEmbs[int(h/13)%len(xEmbs)])
 				}
-				e1 := rotEmbs[int(h/3)%len(rotEmbs)]
-				for _, td := range []int{10, 40, 160} {
-					emit("flatten", t0n, td, latgeo.Identity)
-				}
-				emit("flatten", t0n, []int{10, 40, 160}[int(h/5)%3], e1)
-				if c.Thorough() {
-					emit("flatten", t0n, []int{10, 40, 160}[int(h/7)%3], rotEmbs[int(h/11)%len(rotEmbs)])
-				}
-				if base.Cv.Type == "arc" {
-					emit("replacearcs", 0, 1, latgeo.Identity)
-					emit("replacearcs", 0, 1, e1)
-				}
-				emit("xmonotone", 0, 1, latgeo.Identity)
-				emit("xmonotone", 0, 1, xEmbs[int(h/13)%len(xEmbs)])
 				mu.Lock()
 				items = append(items, local...)
 				mu.Unlock()
